@@ -1265,8 +1265,34 @@ def gen_codec(seed, n, start_id=0):
 # C19 / C20: v2 histories in the form v2 requires (at most one write or removal per key per
 # version), with the option grid, reloads at retained versions, pruning and snapshots
 
+def gen_vrange(seed, n, start_id=0):
+    """C20: `VersionRange` programs - ranges of 0..12 checkpoints (dense, sparse, single), queries at, between,
+    below and above them; a few ranges that `Add` must refuse"""
+    out = []
+    for i in range(n):
+        r = random.Random((seed * 49979687 + start_id + i) & 0xFFFFFFFFFFFF)
+        hid = "vr%d" % (start_id + i)
+        lines = ["new " + hid]
+        for _ in range(40):
+            k = r.choice([0, 1, 1, 2, 3, 4, 5, 8, 12])
+            vs, cur = [], 0
+            for _ in range(k):
+                cur += r.choice([1, 1, 2, 3, 5, 10, 100])
+                vs.append(cur)
+            if vs and r.random() < 0.08:
+                j = r.randrange(len(vs))
+                vs.insert(j, vs[j] if r.random() < 0.5 else max(0, vs[j] - 1))   # duplicate / unordered: refused
+            pts = [0, 1, cur + 1, cur + 7] + vs + [v + 1 for v in vs] + [max(0, v - 1) for v in vs]
+            for q in r.sample(pts, min(len(pts), 3)):
+                lines.append("vrange %s %d" % (",".join(map(str, vs)) if vs else "-", q))
+        out.append((hid, lines))
+    return out
+
+
 def gen_v2(seed, n, start_id=0, persist=False):
     out = []
+    if persist:
+        out += gen_vrange(seed, max(1, n // 100), start_id)
     for i in range(n):
         r = random.Random((seed * 86028121 + start_id + i) & 0xFFFFFFFFFFFF)
         hid = "w%d" % (start_id + i)
